@@ -24,6 +24,7 @@ import (
 	"github.com/piotrnar/gocoin/client/peersdb"
 	"github.com/piotrnar/gocoin/client/txpool"
 	"github.com/piotrnar/gocoin/lib/btc"
+	"github.com/piotrnar/gocoin/lib/others/qdb"
 	"pgregory.net/rapid"
 	"verif/pbt"
 	"verif/ref/ec"
@@ -35,13 +36,14 @@ const hangBound = 20 * time.Second
 const bystanderNonce = uint64(0xb15a4de2b15a4de2)
 
 type seqCase struct {
-	Incoming   bool  `json:"incoming"`
-	Syncing    bool  `json:"syncing"`              // node still in initial block download
-	Handshake  bool  `json:"handshake"`            // a well-formed version message is delivered first
-	Special    bool  `json:"special,omitempty"`    // connection marked "special" (friend / manual)
-	Authorized bool  `json:"authorized,omitempty"` // deliver a valid xauth right after the handshake
-	Bystander  bool  `json:"bystander,omitempty"`  // another peer is connected and has completed its handshake (nonce bystanderNonce)
-	Msgs       []msg `json:"msgs"`
+	Incoming   bool   `json:"incoming"`
+	Syncing    bool   `json:"syncing"`              // node still in initial block download
+	Handshake  bool   `json:"handshake"`            // a well-formed version message is delivered first
+	Special    bool   `json:"special,omitempty"`    // connection marked "special" (friend / manual)
+	Authorized bool   `json:"authorized,omitempty"` // deliver a valid xauth right after the handshake
+	Peers      string `json:"peers,omitempty"`      // peers database at the start: "" empty | full | below | above (see resetWith)
+	Bystander  bool   `json:"bystander,omitempty"`  // another peer is connected and has completed its handshake (nonce bystanderNonce)
+	Msgs       []msg  `json:"msgs"`
 }
 
 // --- the mirror of Run()'s loop body ----------------------------------------------------------------
@@ -332,7 +334,8 @@ func unexportedLocksFree() error {
 	case <-done:
 		return nil
 	case <-time.After(5 * time.Second):
-		return fmt.Errorf("one of the config / peers-db / bandwidth / chain-tree mutexes is still held")
+		wedged.Store(true)
+		return fmt.Errorf("one of the config / peers-db / bandwidth / chain-tree mutexes is still held (peersdb.Lock, common.LockCfg, common.LockBw or Chain.LastBlock did not come back within 5 s)")
 	}
 }
 
@@ -398,6 +401,9 @@ func newConn(incoming, special bool, serial int) *network.OneConnection {
 	} else {
 		c = network.NewConnection(ad)
 	}
+	if e := theEnv; e != nil && e.fullUsed {
+		e.touched = append(e.touched, qdb.KeyType(ad.UniqID()))
+	}
 	c.X.ConnectedAt = time.Now()
 	c.X.Incomming = incoming
 	c.X.IsSpecial = special
@@ -426,6 +432,16 @@ func resolve(e *envT, c *network.OneConnection, m *msg) []byte {
 		if len(pl) >= 80 {
 			n := network.VerifNonce()
 			copy(pl[72:80], n[:])
+		}
+	case "addr_fresh":
+		// records whose time field holds the marker 1 were seen ten minutes ago
+		if n := csLen(pl); n > 0 {
+			now := uint32(time.Now().Unix()) - 600
+			for off := n; off+30 <= len(pl); off += 30 {
+				if binary.LittleEndian.Uint32(pl[off:]) == 1 {
+					binary.LittleEndian.PutUint32(pl[off:], now)
+				}
+			}
 		}
 	case "ver_peernonce":
 		if len(pl) >= 80 {
@@ -462,9 +478,10 @@ var _ = big.NewInt
 
 type stepStats struct {
 	msgs, reached, nontrivial int
-	fullBlockRequested        bool // a getdata for a full block went to this peer (in-progress entry without collector)
-	sameNonce                 int  // version messages carrying the nonce of the established bystander connection
-	namedInProgress           int  // blocktxn / block / cmpctblock messages naming a block that is in progress on this connection
+	fullBlockRequested        bool   // a getdata for a full block went to this peer (in-progress entry without collector)
+	addrNewNO, addrNewYES     uint64 // gocoin's counters: new addresses refused because the DB is full / taken
+	sameNonce                 int    // version messages carrying the nonce of the established bystander connection
+	namedInProgress           int    // blocktxn / block / cmpctblock messages naming a block that is in progress on this connection
 }
 
 // runSeq executes a case; the returned error is a violation of the property.
@@ -473,7 +490,7 @@ func runSeq(cs seqCase, st *stepStats) (err error) {
 		return nil // see wedged: nothing can be judged in this process any more
 	}
 	e := getEnv()
-	e.reset(cs.Syncing)
+	e.resetWith(cs.Syncing, cs.Peers)
 	serial := 0
 	var by *network.OneConnection
 	if cs.Bystander {
@@ -531,6 +548,9 @@ func runSeq(cs seqCase, st *stepStats) (err error) {
 			return locksFree(c)
 		}
 		pl := resolve(e, c, m)
+		if m.Cmd == "addr" {
+			e.touchAddr(pl)
+		}
 		if st != nil && c.Mutex.TryLock() {
 			if len(c.GetBlockInProgress) > 0 {
 				var key btc.BIDX
@@ -566,6 +586,9 @@ func runSeq(cs seqCase, st *stepStats) (err error) {
 			return err
 		}
 		if err := locksFree(c); err != nil {
+			return fmt.Errorf("after the handler of %q returned, %v", m.Cmd, err)
+		}
+		if err := unexportedLocksFree(); err != nil {
 			return fmt.Errorf("after the handler of %q returned, %v", m.Cmd, err)
 		}
 		// the writer thread's job: whatever was queued for the peer goes out
@@ -636,6 +659,9 @@ func runSeq(cs seqCase, st *stepStats) (err error) {
 	if err := unexportedLocksFree(); err != nil {
 		return err
 	}
+	if st != nil {
+		st.addrNewNO, st.addrNewYES = common.CounterGet("AddrNewNO"), common.CounterGet("AddrNewYES")
+	}
 	harvestCounters()
 	runtime.ReadMemStats(&ms)
 	if grown := ms.TotalAlloc - alloc0; grown > 128<<20+64*plBytes {
@@ -651,7 +677,7 @@ var errReconnect = fmt.Errorf("reconnect")
 // admitted to the mempool, compact blocks completed ...).
 var depthCounters = []string{"HeaderNew", "HeaderFresh", "HeaderOld", "NetBlock-Queued", "NetBlock-CachedA", "UnxpectedBlockNEW", "TxAccepted",
 	"Tx Procesed", "TxInputInMemory", "PreCheckBlockFail", "GetHeadersBadBlock", "GetHeadersOrphBlk", "GetblksMissed", "GetdataBlockSw",
-	"GetdataTxSw", "GetdataCmpctBlk", "AddrNewYES", "AddrUpdated", "PongOK", "InvBlockNew", "InvBlockFresh", "BlkTxnIncomplete",
+	"GetdataTxSw", "GetdataCmpctBlk", "AddrNewYES", "AddrNewNO", "AddrUpdated", "PongOK", "InvBlockNew", "InvBlockFresh", "BlkTxnIncomplete",
 	"ShortIDUnknown", "BanVerSameNonce", "UnxpBlockTxnA", "UnxpBlockTxnB", "BlkTxnSameRcvd", "TrustedMsg-Tx", "TrustedMsg-Block", "BanMisbehave", "PeersBanned", "EmptyHeadersRcvd", "CmpctBlockMaxInProg"}
 
 func harvestCounters() {
@@ -684,7 +710,19 @@ func genSeqCase(t *rapid.T) seqCase {
 	}
 	cs.Authorized = cs.Handshake && g.chance(20)
 	cs.Bystander = g.chance(35)
+	if g.chance(12) {
+		cs.Peers = pick(g, []string{"full", "full", "below", "above"})
+		cs.Handshake = cs.Handshake || g.chance(70)
+	}
 	cs.Msgs = g.sequence(30)
+	if cs.Peers != "" {
+		// addr messages with fresh, routable, segwit-flagged addresses the database does not know yet
+		// (1, 2, a few, many per message; optionally mixed with known ones)
+		for i, n := 0, g.n(1, 3, "naddrmsg"); i < n; i++ {
+			j := g.n(0, len(cs.Msgs), "addrpos")
+			cs.Msgs = append(cs.Msgs[:j], append([]msg{g.addrFresh()}, cs.Msgs[j:]...)...)
+		}
+	}
 	if cs.Bystander && g.chance(40) {
 		// a well-formed version that repeats the bystander's nonce; it is what HandleVersion's scan over the
 		// other connections looks for.  Before the handshake it goes first; after a handshake it only gets
@@ -721,6 +759,9 @@ func classify(r *pbt.Run, cs seqCase) {
 	}
 	if cs.Bystander {
 		r.Class("bystander_connection")
+	}
+	if cs.Peers != "" {
+		r.Class("peers_db/" + cs.Peers)
 	}
 	seenCmd := map[string]bool{}
 	seenKind := map[string]bool{}
@@ -775,6 +816,15 @@ func TestHandlerSequences(t *testing.T) {
 		}
 		if st.sameNonce > 0 {
 			r.Class("version/same_nonce_as_bystander")
+		}
+		if cs.Peers != "" && st.addrNewNO > 0 {
+			r.Class("addr/new_record_while_db_full")
+			if st.addrNewYES > 0 {
+				r.Class("addr/db_filled_up_during_the_case")
+			}
+		}
+		if cs.Peers != "" && st.addrNewYES > 0 {
+			r.Class("addr/new_record_taken_near_the_limit")
 		}
 		if st.fullBlockRequested {
 			r.Class("state/full_block_requested_from_peer")
